@@ -286,6 +286,11 @@ def gen_scenario(r: random.Random, task: Optional[str] = None, n_frames: Optiona
             pf_labels.append("false_positive")
         pf = {"target_labels": pf_labels, "matching_threshold_list": [round(r.choice([0.05, 0.5, 1.0, 2.0, 5.0, 50.0]) * r.uniform(0.8, 1.2), 3) if r.random() > 0.06 else 0.0 for _ in pf_labels]}
         passfail.append(pf)
+    if n_frames > 1 and r.random() < 0.4:
+        # one critical filter / pass-fail configuration for the whole sequence (what a driver script does): the very same
+        # configuration objects are then handed to every frame (see Run.configs)
+        critical = [critical[0]] * n_frames
+        passfail = [passfail[0]] * n_frames
     info = dict(task=task, n_frames=n_frames, n_tracks=n_tracks, merge=merge, far_ego=far_ego, wide=wide, policy=cfg["matching_label_policy"], fp_share=fp_share, pos_sig=pos_sig, p_switch=p_switch)
     return Scenario(task=task, frames=frames, cfg=cfg, critical=critical, passfail=passfail, info=info)
 
@@ -313,9 +318,14 @@ class Run:
     def configs(self, k: int):
         from perception_eval.evaluation.result.perception_frame_config import CriticalObjectFilterConfig, PerceptionPassFailConfig
 
-        crit = CriticalObjectFilterConfig(evaluator_config=self.config, **self.scn.critical[k])
-        pf = PerceptionPassFailConfig(evaluator_config=self.config, **self.scn.passfail[k])
-        return crit, pf
+        # frames that share one parameter dictionary share one configuration *object* (built on first use)
+        cache = self.__dict__.setdefault("_cfg_cache", {})
+        key = (id(self.scn.critical[k]), id(self.scn.passfail[k]))
+        if key not in cache:
+            crit = CriticalObjectFilterConfig(evaluator_config=self.config, **self.scn.critical[k])
+            pf = PerceptionPassFailConfig(evaluator_config=self.config, **self.scn.passfail[k])
+            cache[key] = (crit, pf)
+        return cache[key]
 
     def add(self, k: int, negate: bool = False, critical: Optional[Dict[str, Any]] = None, no_ego_pose: bool = False) -> Any:
         f = self.scn.frames[k]
